@@ -167,7 +167,14 @@ fn exhaustive_job(k: usize, fam: usize, chunk: usize, chunks: usize) -> Stats {
             env = BDDEnv::new();
         }
         let t = Tt::from_u64(k as u32, bits);
-        let d = build_in_env(&env, &t, &vars);
+        // every third function is handed over as a diagram the environment did not build itself
+        // (plain unshared nodes, as BDD::<usize>::from(..) or another environment produce them)
+        let d = if bits % 3 == 2 {
+            st.bump("foreign_diagrams");
+            crate::conv::build_ref(&t, &vars)
+        } else {
+            build_in_env(&env, &t, &vars)
+        };
         check_model(&mut st, &env, &labels, &(d, t), outside, name);
     }
     st
@@ -184,7 +191,12 @@ fn random_job(ctx: &Ctx, job: usize, iters: u64) -> Stats {
         // sparse functions make the else-arms frequent
         let dens = [1u64, 1, 2, 8, 14][rng.usize(5)];
         let t = random_table(&mut rng, nvars as u32, dens);
-        let d = build_in_env(&env, &t, &vars_of(&uni));
+        let d = if rng.chance(1, 3) {
+            st.bump("foreign_diagrams");
+            crate::conv::build_ref(&t, &vars_of(&uni))
+        } else {
+            build_in_env(&env, &t, &vars_of(&uni))
+        };
         check_model(&mut st, &env, &uni, &(d, t), outside, "random");
         st.bump("random_functions");
     }
@@ -304,12 +316,13 @@ pub fn run(ctx: &Ctx) -> (Stats, Spec) {
         cli_case(ctx, &mut st, t);
     }
     let spec = Spec {
-        rule: "every Boolean function over 3 and 4 variables (two label families) plus random functions over 5-8 sparse labels with densities biased towards sparse (else-arms); for each: model() false iff unsat, cube shape, literals within support, model => f; infer(model, v) and infer(f, v) for every variable and one unmentioned variable; CLI: generated formulas through `rsbdd -m -t`, `-m -t -ft`, `-m -v`. distinct = (table, family) resp. (text, mode); non-trivial = satisfiable non-constant function (CLI: >= 2 free variables).".into(),
+        rule: "every Boolean function over 3 and 4 variables (two label families) plus random functions over 5-8 sparse labels with densities biased towards sparse (else-arms); a third of all diagrams are handed over as plain unshared nodes the environment did not build; for each: model() false iff unsat, cube shape, literals within support, model => f; infer(model, v) and infer(f, v) for every variable and one unmentioned variable; CLI: generated formulas through `rsbdd -m -t`, `-m -t -ft`, `-m -v`. distinct = (table, family) resp. (text, mode); non-trivial = satisfiable non-constant function (CLI: >= 2 free variables).".into(),
         assumptions: vec!["infer on a variable the diagram does not mention counts as forced only when the diagram is unsatisfiable".into()],
         floors: vec![
             ("model_calls".into(), 60_000, "model never exercised".into()),
             ("models_needing_an_else_arm".into(), 1_000, "else-arm of model never exercised".into()),
             ("infer_forced_true".into(), 1_000, "infer never answered for a forced variable".into()),
+            ("foreign_diagrams".into(), 10_000, "diagrams not built by the environment never exercised".into()),
             ("cli[-m -t]".into(), 50, "CLI never exercised".into()),
             ("distinct_nontrivial".into(), 10_000, "too few non-trivial cases".into()),
         ],
@@ -327,5 +340,7 @@ pub fn replay(ctx: &Ctx, _monitor: &str, case: &Value, st: &mut Stats) {
     let Some(t) = parse_table(case, "f") else { return };
     let env = BDDEnv::new();
     let d = build_in_env(&env, &t, &vars_of(&uni));
-    check_model(st, &env, &uni, &(d, t), outside, "replay");
+    check_model(st, &env, &uni, &(d, t.clone()), outside, "replay");
+    let d2 = crate::conv::build_ref(&t, &vars_of(&uni));
+    check_model(st, &env, &uni, &(d2, t), outside, "replay-foreign");
 }
